@@ -1097,6 +1097,20 @@ func ruleLadderCases() []RCaseR {
 		}
 		out = append(out, c)
 	}
+	for _, n := range []int{2000, 3900, 3964, 4000, 4096} {
+		// several multi-kilobyte strings in one rule (the wire form grows past 8 KiB and towards 64 * 4 KiB)
+		d, e := "/"+strings.Repeat("d", n-1), "/"+strings.Repeat("e", n-1)
+		out = append(out, mk(Occ{Flag: "a", Value: "always,exit"}, Occ{Flag: "F", Value: "dir=" + d, LHS: "dir", Op: "=", RHS: d, Str: true},
+			Occ{Flag: "F", Value: "exe=" + e, LHS: "exe", Op: "=", RHS: e, Str: true}, Occ{Flag: "k", Value: "big"}))
+		c := mk(Occ{Flag: "a", Value: "never,exit"})
+		for i := 0; i < 6; i++ {
+			s := "/" + strings.Repeat(string(rune('a'+i)), n-1)
+			oc := Occ{Flag: "F", Value: "path=" + s, LHS: "path", Op: "=", RHS: s, Str: true}
+			c.Occs = append(c.Occs, oc)
+			c.Tokens = append(c.Tokens, "-F", oc.Value)
+		}
+		out = append(out, c)
+	}
 	for _, n := range []int{255, 256, 257, 4095, 4096, 4097} {
 		s := "/" + strings.Repeat("d", n-1)
 		out = append(out, mk(Occ{Flag: "a", Value: "always,exit"}, Occ{Flag: "F", Value: "path=" + s, LHS: "path", Op: "=", RHS: s, Str: true}),
@@ -1119,12 +1133,26 @@ func watchShapeCases() []RCaseR {
 	var out []RCaseR
 	file, dir := filepath.Join(ruleTmp, "file1"), filepath.Join(ruleTmp, "dir1")
 	perms := [][]int{{0, 1, 2}, {0, 2, 1}, {1, 0, 2}, {1, 2, 0}, {2, 0, 1}, {2, 1, 0}}
+	type spelled struct{ kind, target string }
+	var targets []spelled
 	for _, kind := range []string{"path", "dir"} {
-		target := file
+		base := file
 		if kind == "dir" {
-			target = dir
+			base = dir
 		}
-		for _, variant := range []string{"plain", "S all", "never", "task", "S open", "fourth", "perm-first-only", "no-key", "no-perm", "ne", "two keys"} {
+		targets = append(targets, spelled{kind, base})
+		// spellings that name the same object but are not clean paths
+		parent, leaf := filepath.Dir(base), filepath.Base(base)
+		targets = append(targets, spelled{kind + "~", parent + "/./" + leaf}, spelled{kind + "~", parent + "/../" + filepath.Base(parent) + "/" + leaf},
+			spelled{kind + "~", parent + "//" + leaf}, spelled{kind + "~", base + "/"}, spelled{kind + "~", base + "/."})
+	}
+	for _, sp := range targets {
+		kind, target := strings.TrimSuffix(sp.kind, "~"), sp.target
+		variants := []string{"plain", "S all", "never", "task", "S open", "fourth", "perm-first-only", "no-key", "no-perm", "ne", "two keys"}
+		if strings.HasSuffix(sp.kind, "~") {
+			variants = []string{"plain", "no-key"}
+		}
+		for _, variant := range variants {
 			for _, pm := range perms {
 				pw := uint32(permWord("wa"))
 				parts := []Occ{
@@ -1773,6 +1801,34 @@ func ruleFamily(ctx *Ctx) error {
 		}
 		for _, c := range operatorEdgeCases() {
 			run(c, "operator-edge")
+		}
+		// one flag repeated 2, 3, 255, 256, 257, 512, 513 times (whatever counts occurrences must not wrap)
+		for _, n := range []int{2, 3, 255, 256, 257, 512, 513} {
+			for _, oc := range []Occ{{Flag: "w", Value: "/tmp/w"}, {Flag: "a", Value: "always,exit"}, {Flag: "A", Value: "never,exit"}, {Flag: "p", Value: "r"},
+				{Flag: "k", Value: "rk"}, {Flag: "S", Value: "open"}, {Flag: "D"}} {
+				c := RCaseR{Kind: "line", Note: "flag-repeat"}
+				lead := Occ{Flag: "a", Value: "always,exit"}
+				if oc.Flag == "w" || oc.Flag == "p" {
+					lead = Occ{Flag: "w", Value: "/tmp/first"}
+				}
+				if oc.Flag != "a" && oc.Flag != "A" && oc.Flag != "D" && !(oc.Flag == "w") {
+					c.Occs = append(c.Occs, lead)
+					c.Tokens = append(c.Tokens, "-"+lead.Flag, lead.Value)
+				}
+				for i := 0; i < n; i++ {
+					o2 := oc
+					if oc.Flag == "w" {
+						o2.Value = fmt.Sprintf("/tmp/w%d", i)
+					}
+					c.Occs = append(c.Occs, o2)
+					if o2.Flag == "D" {
+						c.Tokens = append(c.Tokens, "-D")
+					} else {
+						c.Tokens = append(c.Tokens, "-"+o2.Flag, o2.Value)
+					}
+				}
+				run(c, "flag-repeat")
+			}
 		}
 		// the flag loop, bounded exhaustive: every sequence of up to 3 (thorough: 4) tokens — flags with and
 		// without their values, inline values, values that look like flags, the terminator, stray words (no
